@@ -29,7 +29,7 @@ class C12(PropBase):
     STEPS = {"quick": 70, "thorough": 140}
     REQUIRED_CELLS = tuple("amount:%s" % c for c in ("none", "zero", "one", "partial", "exact", "plus1", "huge"))
     REQUIRED_REACH = ("partial_then_send", "drain_zero_with_pending", "refused_call_with_pending", "drain_after_close",
-                      "send_failed_while_encoding")
+                      "send_failed_while_encoding", "send_on_copy")
 
     def init_op(self, rng):
         role = "s" if rng.random() < 0.55 else "c"
@@ -50,6 +50,12 @@ class C12(PropBase):
     # ------------------------------------------------------------------ policy
 
     def next_op(self, st, rng):
+        op = self._next_op(st, rng)
+        if op is not None and op.get("op") == "call" and rng.random() < 0.03:
+            return dict(op, op="copy_call")
+        return op
+
+    def _next_op(self, st, rng):
         w = st.w
         init = w.init
         S = w.s["S"]
@@ -166,6 +172,35 @@ class C12(PropBase):
                     st.x["nontrivial"] = True
                     st.hit("partial_then_send")
             self._conserve(st, "after call %s" % op["m"])
+        elif k == "copy_call":
+            # the application snapshots the session (copy.deepcopy) and sends on the COPY: none of that may reach the
+            # stream of the session itself, and the copy's stream is the session's pending bytes plus at most that one message
+            import copy
+
+            from ..values import build_call
+
+            before = w.pending("S")
+            try:
+                cp = w.clone("S")
+                args, kw = build_call(op["m"], op.get("a", {}), {})
+            except Exception:  # noqa: BLE001
+                return
+            try:
+                getattr(cp, op["m"])(*args, **kw)
+                acc = True
+            except Exception:  # noqa: BLE001
+                acc = False
+            st.label("copy_call:%s" % ("acc" if acc else "ref"))
+            st.hit("send_on_copy")
+            after = w.pending("S")
+            if after != before:
+                raise Violation(P, "stream-shared-with-copy", "%s on a deep copy of the session changed the session's own pending bytes "
+                                "(%d -> %d)" % (op["m"], len(before), len(after)))
+            mine = bytes(copy.deepcopy(cp).data_to_send())
+            if mine[: len(before)] != before or (not acc and mine != before):
+                raise Violation(P, "stream-shared-with-copy", "the copy's pending bytes (%d) do not start with the %d bytes that were "
+                                "pending when it was taken" % (len(mine), len(before)))
+            self._conserve(st, "after a send on a copy")
         elif k == "inject":
             w.apply(dict(op, to="S"))
             w.apply(dict(op, to="T"))
